@@ -5,13 +5,17 @@
 use super::*;
 
 pub(crate) fn bare_dumper(mappings: Vec<MappingInfo>) -> PtraceDumper {
-    PtraceDumper {
-        pid: 0,
-        threads_suspended: false,
-        threads: Vec::new(),
-        auxv: Default::default(),
-        mappings,
-        page_size: 4096,
+    // zero-initialised, then filled field by field: robust against a change that adds a field
+    unsafe {
+        let mut d = core::mem::MaybeUninit::<PtraceDumper>::zeroed();
+        let p = d.as_mut_ptr();
+        core::ptr::write(core::ptr::addr_of_mut!((*p).pid), 0);
+        core::ptr::write(core::ptr::addr_of_mut!((*p).threads_suspended), false);
+        core::ptr::write(core::ptr::addr_of_mut!((*p).threads), Vec::new());
+        core::ptr::write(core::ptr::addr_of_mut!((*p).auxv), Default::default());
+        core::ptr::write(core::ptr::addr_of_mut!((*p).mappings), mappings);
+        core::ptr::write(core::ptr::addr_of_mut!((*p).page_size), 4096);
+        d.assume_init()
     }
 }
 
